@@ -109,7 +109,12 @@ class ServeManifest(RequestHandlerBase):
         response = self.check_for_synthetic_manifest_error(options, context)
         if response is not None:
             return response
-        body = flask.render_template(f'manifests/{manifest}', **context)
+        try:
+            body = flask.render_template(f'manifests/{manifest}', **context)
+        except (ValueError, OverflowError) as err:
+            # e.g. a SegmentTimeline for a stream that has not started yet
+            logging.info('Invalid CGI parameters: %s', err)
+            return flask.make_response('Invalid CGI parameters', 400)
         try:
             max_age = int(math.floor(context["minimumUpdatePeriod"]))
         except KeyError:
@@ -183,7 +188,12 @@ class ServeMultiPeriodManifest(RequestHandlerBase):
         context = cast(ManifestTemplateContext, self.create_context(
             title=current_mps.title, mpd=dash, options=options,
             mode=mode))
-        body = flask.render_template(f'manifests/{manifest}', **context)
+        try:
+            body = flask.render_template(f'manifests/{manifest}', **context)
+        except (ValueError, OverflowError) as err:
+            # e.g. a SegmentTimeline for a stream that has not started yet
+            logging.info('Invalid CGI parameters: %s', err)
+            return flask.make_response('Invalid CGI parameters', 400)
         try:
             max_age = int(math.floor(context["minimumUpdatePeriod"]))
         except KeyError:
@@ -305,7 +315,12 @@ class ServePatch(RequestHandlerBase):
 
         if manifest.endswith('.mpd'):
             manifest = manifest[:-4]
-        body = flask.render_template(f'patches/{manifest}.xml', **context)
+        try:
+            body = flask.render_template(f'patches/{manifest}.xml', **context)
+        except (ValueError, OverflowError) as err:
+            # e.g. a SegmentTimeline for a stream that has not started yet
+            logging.info('Invalid CGI parameters: %s', err)
+            return flask.make_response('Invalid CGI parameters', 400)
         try:
             max_age = int(math.floor(context["minimumUpdatePeriod"]))
         except KeyError:
